@@ -531,8 +531,24 @@ def c04_reset(ctx):
                 if isinstance(n, ast.Call) and call_name(n) == "self.%s.clear" % attr:
                     return True
                 return False
-            ss = sites(ctx.res, call, is_reset, depth=2, must=True)
-            if ss and gcall.every_path_to(gcall.nodes_of_all(go_calls), gcall.nodes_of_all(ss)):
+            # `hasattr(self, <attribute created in the same __init__ block>)` is
+            # true whenever the container exists: such guards are transparent
+            sib = set()
+            for a_ in ancestors(created[attr]):
+                if isinstance(a_, (ast.If, ast.FunctionDef)):
+                    blk = a_.body if in_block(created[attr], a_.body) else getattr(a_, "orelse", [])
+                    for s_ in blk:
+                        if isinstance(s_, ast.Assign):
+                            sib.update(t[5:] for t in stores_to(s_) if t.startswith("self."))
+                    break
+
+            def assume(test, sib=sib):
+                if isinstance(test, ast.Call) and call_name(test) == "hasattr" and len(test.args) == 2 and dotted(test.args[0]) == "self" \
+                        and isinstance(test.args[1], ast.Constant) and test.args[1].value in sib:
+                    return True
+                return None
+            ss = sites(ctx.res, call, is_reset, depth=2, must=True, assume=assume)
+            if ss and gcall.every_path_to(gcall.nodes_of_all(go_calls), gcall.nodes_of_all(ss), avoid_edges=gcall.assume_edges(assume)):
                 where_reset = (ss[0], "re-created on every path of __call__ before dispatching starts")
         n_mut = len(mutated[attr])
         if where_reset:
